@@ -8,6 +8,7 @@ import (
 	"path/filepath"
 	"sort"
 	"strings"
+	"sync"
 
 	"golang.org/x/tools/go/packages"
 	"golang.org/x/tools/go/ssa"
@@ -30,6 +31,8 @@ type Engine struct {
 	globals   map[*types.Var]*ssa.Global
 	wrappers  map[*ssa.Function]*ssa.Function
 	loadErrs  []string
+	gvOnce    sync.Once
+	gvars     map[string]*ghostVarInfo
 }
 
 type BoundContract struct {
@@ -169,6 +172,17 @@ func loadEngine(repo string) (*Engine, error) {
 			parseContractFile(m, p.PkgPath, e.cs)
 		}
 	}
+	for _, ov := range e.cs.Overlays {
+		pkg := e.tpkgs[ov[0]]
+		a, ok1 := pkg.Scope().Lookup(ov[1]).(*types.TypeName)
+		s, ok2 := pkg.Scope().Lookup(ov[2]).(*types.TypeName)
+		if !ok1 || !ok2 {
+			e.bindErrs = append(e.bindErrs, fmt.Sprintf("overlay %s %s: unknown type", ov[1], ov[2]))
+			continue
+		}
+		_ = a
+		overlayTypes[ov[0]+"."+ov[1]] = s.Type()
+	}
 	e.bindAll()
 	return e, nil
 }
@@ -229,6 +243,28 @@ func (e *Engine) lookupUninterp(pkg *types.Package, name string) *Uninterp {
 		return u
 	}
 	return nil
+}
+
+type ghostVarInfo struct {
+	id  int
+	typ types.Type
+}
+
+func (e *Engine) ghostVar(name string) *ghostVarInfo {
+	e.gvOnce.Do(func() {
+		e.gvars = map[string]*ghostVarInfo{}
+		for i, g := range e.cs.GhostVars {
+			pkg := e.tpkgs[g.PkgPath]
+			env := &SpecEnv{cx: &Ctx{eng: e}, pkg: pkg}
+			t := env.lookupType(g.TypeExpr)
+			if t == nil {
+				e.bindErrs = append(e.bindErrs, "ghost var "+g.Field+": unknown type")
+				continue
+			}
+			e.gvars[g.Field] = &ghostVarInfo{id: i + 1, typ: t}
+		}
+	})
+	return e.gvars[name]
 }
 
 func (e *Engine) contractFor(fn *ssa.Function) *BoundContract { return e.byFn[fn] }
@@ -457,6 +493,34 @@ func (e *Engine) newWorld() (*World, []string) {
 	}
 	for _, t := range order {
 		w.addGhostFields(t, byType[t])
+	}
+	for _, g := range e.cs.Guards {
+		pkg := e.tpkgs[g.PkgPath]
+		tn, ok := pkg.Scope().Lookup(g.TypeName).(*types.TypeName)
+		if !ok || !isStructType(tn.Type()) {
+			errs = append(errs, "guard: unknown struct type "+g.TypeName)
+			continue
+		}
+		f, _, ok := w.structInfo(tn.Type()).field(g.Field)
+		if !ok {
+			errs = append(errs, "guard: no field "+g.TypeName+"."+g.Field)
+			continue
+		}
+		w.guards[f.FID] = &boundGuard{g: g, structT: tn.Type(), pkg: pkg}
+	}
+	for _, g := range e.cs.FieldAssumes {
+		pkg := e.tpkgs[g.PkgPath]
+		tn, ok := pkg.Scope().Lookup(g.TypeName).(*types.TypeName)
+		if !ok || !isStructType(tn.Type()) {
+			errs = append(errs, "assume-field: unknown struct type "+g.TypeName)
+			continue
+		}
+		f, _, ok := w.structInfo(tn.Type()).field(g.Field)
+		if !ok {
+			errs = append(errs, "assume-field: no field "+g.TypeName+"."+g.Field)
+			continue
+		}
+		w.fieldAssume[f.FID] = &boundGuard{g: g, structT: tn.Type(), pkg: pkg}
 	}
 	for _, ex := range e.cs.Exempt {
 		pkg := e.tpkgs[ex.PkgPath]
